@@ -57,9 +57,14 @@ PROBE_LATENCY_S = 5.0
 # C02 bounds (measured on the unchanged tree, see DESIGN.md §6 C02 *End-to-end*): resident memory
 RSS_FLOOR_KB = 200 * 1024
 # allocation volume the collector reports itself: fixed part + per datagram + per octet
-ALLOC_BASE = 64 << 20
-ALLOC_PER_DGRAM = 16384
-ALLOC_PER_OCTET = 200
+ALLOC_BASE = 8 << 20
+ALLOC_PER_DGRAM = 8192
+ALLOC_PER_OCTET = 100
+ALLOC_PER_POLL = 8192          # every /flow or /sys request of the harness allocates about 3.5 kB in the collector
+ALLOC_PER_SECOND = 65536       # the idle collector: 6 kB/s (read deadlines, pool refills)
+# finding K4: decoded fields beyond the octets of their datagram (records x zero-length specifiers; C02 *_fields_linear).
+# What the collector may spend on each of them before the excess is no longer explained by K4
+ALLOC_PER_EXTRA_FIELD = 1024
 
 
 class Sink:
@@ -192,11 +197,11 @@ def sflow_probe(rng):
 
 
 class Item:
-    __slots__ = ("proto", "sess", "idx", "ip", "dg", "phase", "cls", "z", "chg", "payload", "part")
+    __slots__ = ("proto", "sess", "idx", "ip", "dg", "phase", "cls", "z", "chg", "payload", "part", "fields")
 
     def __init__(self, proto, sess, idx, ip, dg):
         self.proto, self.sess, self.idx, self.ip, self.dg = proto, sess, idx, ip, dg
-        self.phase, self.cls, self.z, self.chg, self.payload, self.part = 0, "?", 0, 0, None, "stream"
+        self.phase, self.cls, self.z, self.chg, self.payload, self.part, self.fields = 0, "?", 0, 0, None, "stream", 0
 
 
 def build_stream(seed, n, per_proto):
@@ -246,11 +251,11 @@ def reference(items, udp_size):
     if p.returncode not in (0, 3) or len(out) < (len(items) if p.returncode == 0 else 1):
         return "rc=%s %s" % (p.returncode, p.stderr.decode("utf-8", "replace")[-200:])
     for it, l in zip(items, out):
-        f = l.split(b"\t", 3)
-        if len(f) != 4:
+        f = l.split(b"\t", 4)
+        if len(f) != 5:
             return "bad line %r" % l[:80]
-        it.cls, it.z, it.chg = f[0].decode(), int(f[1]), int(f[2])
-        it.payload = f[3] if it.cls == "d" else None
+        it.cls, it.z, it.chg, it.fields = f[0].decode(), int(f[1]), int(f[2]), int(f[3])
+        it.payload = f[4] if it.cls == "d" else None
     for it in items[len(out):]:
         it.cls = "?"
     return None
@@ -258,6 +263,17 @@ def reference(items, udp_size):
 
 def counts_as_decoded(it):
     return it.cls in ("t", "m", "d")
+
+
+def extra_fields(it, udp_size):
+    """the K4 term of one datagram: decoded fields that no octet of the datagram pays for. A datagram that yields no
+    message (class x) may have decoded records before its fatal error: bounded by octets x z (C02 *_fields_linear)"""
+    if it.proto not in ("ipfix", "nf9"):
+        return 0
+    octets = min(len(it.dg), udp_size)
+    if it.cls in ("x", "p", "h"):
+        return octets * it.z
+    return max(0, it.fields - octets)
 
 
 class Abort(Exception):
@@ -284,8 +300,8 @@ class Cycle:
         self.want_lines = 0
         self.expected = {}          # payload -> multiplicity (datagrams sent so far)
         self.vf = self.sink = None
-        self.t_last_progress = time.time()
         self.peak_queue = 0
+        self.polls = 0
 
     # ------------------------------------------------------------------ helpers
     def fail(self, cls, text):
@@ -294,6 +310,7 @@ class Cycle:
     def stats(self):
         """/flow of the collector, or Abort: a dead process is a finding, an unreachable API no verdict"""
         for _ in range(3):
+            self.polls += 1
             st = self.vf.stats()
             if st is not None and all(isinstance(st.get(STAT[p]), dict) for p in PROTOS):
                 return st
@@ -305,6 +322,7 @@ class Cycle:
         # alive but silent for 3 x 1 s: wait longer before giving up (a loaded machine), then no verdict
         t0 = time.time()
         while time.time() - t0 < NO_PROGRESS_S:
+            self.polls += 1
             st = self.vf.stats()
             if st is not None and all(isinstance(st.get(STAT[p]), dict) for p in PROTOS):
                 return st
@@ -346,6 +364,10 @@ class Cycle:
         """a counter beyond what the datagrams sent so far can account for: wrong whatever happens next"""
         for p in PROTOS:
             u, d = st[STAT[p]]["UDPCount"], st[STAT[p]]["DecodedCount"]
+            if self.sent[p] == 0 and (u or d):
+                self.fail("cross", "nothing has been sent to the %s port yet (sent so far: %s): its counters show UDPCount=%d DecodedCount=%d"
+                          % (p, ", ".join("%s %d" % (q, self.sent[q]) for q in PROTOS if self.sent[q]), u, d))
+                continue
             if u > self.sent[p]:
                 self.fail("count", "%s UDPCount = %d after %d datagrams were sent to its port" % (STAT[p], u, self.sent[p]))
             if d > self.want_dec[p]:
@@ -524,10 +546,11 @@ class Cycle:
         for j, it in enumerate(items):
             it.phase = it.idx if it.proto in ("ipfix", "nf9") else j % nph
         zmax = max([it.z for it in items] + [0])
+        k4_fields = sum(extra_fields(it, self.udp_size) for it in items)
         dist = {}
         for it in items:
             dist[it.proto + "/" + it.cls] = dist.get(it.proto + "/" + it.cls, 0) + 1
-        self.sample.update({"datagrams": len(items), "phases": nph, "classes": dist, "zero_length_specs_max": zmax,
+        self.sample.update({"datagrams": len(items), "phases": nph, "classes": dist, "zero_length_specs_max": zmax, "k4_extra_fields": k4_fields,
                             "octets": sum(len(it.dg) for it in items)})
 
         # ---- the collector
@@ -591,22 +614,24 @@ class Cycle:
         nworkers = 4 * self.workers
         rss_bound = RSS_FLOOR_KB + (4 * 1000 + 2 * nworkers) * self.udp_size // 1024
         self.sample.update({"vmhwm_kb": hwm, "vmhwm_bound_kb": rss_bound})
-        zero_len = zmax > 0
+        # an excess is finding K4 (`fail:amplification`) only as far as the zero-length term explains it: the reference counted
+        # k4_fields decoded fields beyond the octets of their datagrams; anything above that is an ordinary violation
+        k4_alloc = ALLOC_PER_EXTRA_FIELD * k4_fields
+        k4_txt = ("; the stream installs templates with up to %d zero-length field specifiers: %d decoded fields consume no octet of "
+                  "their datagram (K4), allowance %d bytes" % (zmax, k4_fields, k4_alloc))
         if hwm is not None and hwm > rss_bound:
-            self.fail("amplification" if zero_len else "rss",
+            self.fail("amplification" if hwm <= rss_bound + k4_alloc // 1024 else "rss",
                       "VmHWM of the collector is %d kB after %d datagrams (%d octets); bound for %d workers and read buffers of %d octets: %d kB%s"
-                      % (hwm, len(items), self.sample["octets"], nworkers, self.udp_size, rss_bound,
-                         ("; the stream installs templates with up to %d zero-length field specifiers (K4)" % zmax) if zero_len else ""))
+                      % (hwm, len(items), self.sample["octets"], nworkers, self.udp_size, rss_bound, k4_txt if k4_fields else ""))
         if sys0 and sys1:
             alloc = sys1["MemTotalAlloc"] - sys0["MemTotalAlloc"]
-            lin = ALLOC_BASE + sum(ALLOC_PER_DGRAM + ALLOC_PER_OCTET * min(len(it.dg), self.udp_size) for it in items)
+            lin = (ALLOC_BASE + sum(ALLOC_PER_DGRAM + ALLOC_PER_OCTET * min(len(it.dg), self.udp_size) for it in items)
+                   + ALLOC_PER_POLL * (self.polls + 2) + int(ALLOC_PER_SECOND * (time.time() - t_stream + 1)))
             self.sample.update({"total_alloc": alloc, "total_alloc_bound": lin})
             if alloc > lin:
-                self.fail("amplification" if zero_len else "alloc",
+                self.fail("amplification" if alloc <= lin + k4_alloc else "alloc",
                           "the collector reports %d bytes allocated (/sys MemTotalAlloc) for %d datagrams of %d octets in all; linear bound %d%s"
-                          % (alloc, len(items), self.sample["octets"], lin,
-                             ("; the stream installs templates with up to %d zero-length field specifiers, each decoded record pays for them "
-                              "without consuming an octet (K4)" % zmax) if zero_len else ""))
+                          % (alloc, len(items), self.sample["octets"], lin, k4_txt if k4_fields else ""))
         if self.findings:
             raise Abort()
 
